@@ -1,5 +1,6 @@
+\* regression documentation of FIXED finding F1-nearmax (arithmetic before 663b135): must still fail
 CONSTANTS BODY = "B"  TNEG = 8  TMAX = 8  CNEG = 1000  CMAX = 1000  BNEG = 8  BHI = 8
-          MAXELEMS = 16  MAXPEERS = 6  REVERSED = FALSE  NEARMAX = TRUE  WRAPPED = TRUE
+          MAXELEMS = 16  MAXPEERS = 6  FIX_REVERSED = TRUE  FIX_CLAMP_START = FALSE  WRAPPED = TRUE
 SPECIFICATION Spec
 INVARIANTS C15_Range
 CHECK_DEADLOCK FALSE
